@@ -401,13 +401,63 @@ def c_big(rng, strkeys, n, nops):
     g.op('copy 1 0'); g.op('check 1'); g.op('assign 0 0'); g.op('check 0')
     return g.lines
 
+def c_cmp_hash(rng, kind, n, rounds):
+    """cmp(t, s) / hash(t) of Trees (Tree_Cmp, Tree_Hash): two trees given the same bindings in different insertion orders
+    (different shapes: they compare equal and hash alike), then histories that make them differ in one value (by one, by 256 —
+    memcmp order of the plain struct values is not numeric order —, by sign, by 2^32), in one key, in length (one a proper
+    prefix of the other, either way), empty trees, a tree with itself, copies and assigned trees; every cmp is asked both ways
+    and followed by both hashes"""
+    g = Gen(rng, kind)
+    ks = rng.sample(range(3 * n), n)
+    a = list(ks); rng.shuffle(a)
+    b = sorted(ks, reverse=rng.random() < 0.5)
+    g.new(0); g.new(1)
+    def both():
+        g.op('cmp 0 1'); g.op('cmp 1 0'); g.op('hash 0'); g.op('hash 1')
+    both()
+    for i in a: g.set(0, i, i)
+    both()
+    for i in b: g.set(1, i, i)
+    both()
+    for r in range(rounds):
+        t = rng.randrange(2); o = 1 - t
+        present = sorted(g.keys[t])
+        x = rng.random()
+        if x < 0.3 and present:
+            i = rng.choice(present)
+            g.set(t, i, rng.choice([i + 1, i - 1, i + 256, i - 256, -i - 1, i + 2**32]))
+            both()
+            if rng.random() < 0.7: g.set(t, i, i); both()
+        elif x < 0.5 and present:
+            i = rng.choice([present[0], present[-1], rng.choice(present)])
+            g.rem(t, i); both()
+            if rng.random() < 0.6: g.set(t, i, i); both()
+        elif x < 0.62:
+            g.set(t, rng.randrange(3 * n)); both()
+        elif x < 0.74:
+            g.op(f'cmp {t} {t}'); g.op(f'copy 2 {t}'); g.op(f'cmp 2 {t}'); g.op(f'cmp {t} 2'); g.op('hash 2')
+            g.op('rem2 2'); g.op(f'cmp 2 {t}'); g.op('hash 2'); g.op('links 2')
+        elif x < 0.84:
+            g.op(f'assign {t} {o}'); g.keys[t] = set(g.keys[o]); both()
+        elif x < 0.92:
+            g.op(rng.choice([f'rem2 {t}', f'remroot {t}'])); g.op(f'links {t}'); both()
+        else:
+            g.op(f'resize {t} 0'); g.keys[t] = set(); both()
+            for i in rng.sample(sorted(g.keys[o]) or [0], min(3, max(1, len(g.keys[o])))): g.set(t, i, i)
+            both()
+    g.op('check 0'); g.op('check 1'); both(); g.op('links 0'); g.op('links 1')
+    g.op('cmp 0 9'); g.op('links 9'); g.op('hash 9'); g.op('cmp 0')
+    return g.lines
+
 class C03(Spec):
     id = 'C03'; engine = 'tree'; harness = 'h_tree'; driver = 'drv_tree'
-    generators = ('Tree',)
+    generators = ('Tree', 'Hash')
     harness_timeout = 150
     technique = ('Lean 4 proof: zipper model of the red-black code of src/Tree.c refines a strictly sorted association list and '
                  'preserves the red-black invariants (induction over histories); model tied to the real Tree.c by a white-box, '
-                 'state-by-state differential check (shape, colours, values after every operation) and a direct oracle in C')
+                 'state-by-state differential check (shape, colours, values after every operation) and a direct oracle in C; '
+                 'third layer: Tree_Cmp / Tree_Hash as lock-step / single cursor walks proved equal to the lexicographic comparison / '
+                 'xor-fold of the in-order sequences; the parent-and-colour word as extracted expression terms with round-trip laws')
     level_text = ('Theorems C03_refines_ordered_map / C03_iteration / C03_balanced (lean/CelloProofs/Props/C03.lean): for every history of '
                   'new/set/rem/get/mem/len/resize/assign/copy/iteration over any number of trees and any lawful key comparison, the model of '
                   'Tree.c (zipper mirror of Tree_Set, Tree_Set_Fix, Tree_Rem with its predecessor memcpy as a block move over the node payload, '
@@ -426,7 +476,11 @@ class C03(Spec):
                   'C03_own_objects_refine extends the history theorem to calls that are given the tree\'s own key / value objects, to '
                   'assign from a foreign map and to the odd-count constructor; it holds because String_Assign returns when given its own '
                   'buffer (flag read from src/String.c; the model without it is undefined on the witness of C03_set_own_string_old_refuted). '
-                  'C03_int_keys / C03_string_keys instantiate the order with the translated Int_Cmp and with strcmp on bytes.')
+                  'C03_int_keys / C03_string_keys instantiate the order with the translated Int_Cmp and with strcmp on bytes. '
+                  'C03_cmp_hash_refine extends the histories by cmp(t, s) and hash(t) on Trees (Tree_Cmp, Tree_Hash mirrored as cursor '
+                  'loops over the parent-link walks; C03_tree_cmp_is_lexicographic, C03_tree_hash_shape_independent: the results do not '
+                  'depend on the shapes). C03_parent_word_current_source: the expressions of Tree_Get_Parent / Tree_Set_Parent / '
+                  'Tree_Set_Color / Tree_Get_Color read from the source make the third node word a pair (parent, colour).')
     rule = ('op files over Int, String and 24-byte struct keys (own lexicographic Cmp) with Int, 24-byte and 40-byte plain struct '
             'values, i.e. node layouts with ksize = vsize and with ksize != vsize in both directions; every 8-byte word of every '
             'value (and struct key) is distinct, and whole keys and whole values are dumped and compared after every op; '
@@ -450,10 +504,25 @@ class C03(Spec):
             'ends of int64_t and 2^31 / 2^32 apart, String keys with bytes >= 0x80. '
             'non-trivial item = a successful set or rem whose resulting tree holds >= 2 bindings (so that a fix-up, a rotation or a '
             'recolouring is possible); distinct = distinct (operation text, resulting concrete tree dump) pair. The evidence also '
-            'lists how often each branch of Tree_Set_Fix / Tree_Rem_Fix was taken (branch_* counters, computed by the driver).')
+            'lists how often each branch of Tree_Set_Fix / Tree_Rem_Fix was taken (branch_* counters, computed by the driver). '
+            'Third layer (cmph_* cases, corpus/tree_cmp_hash.ops): cmp(t, s) both ways and hash(t) of two trees given the same bindings '
+            'in different insertion orders, then differing in one value (by 1, by 256: memcmp order of the struct values, by sign, by '
+            '2^32), in one key, in length (proper prefix either way), empty, a tree with itself, copies, after rem2 / remroot / assign / '
+            'resize — every key / value layout; oracle tree-cmp / tree-hash from the reference maps (counters cmp_equal / '
+            'cmp_key_decides / cmp_value_decides / cmp_prefix_decides / cmp_with_itself / hash_of_empty and branch_cmp:* / '
+            'branch_hash:*); `links` = per node the parent key and colour decoded from the RAW third word by the harness, against the '
+            'table the driver reads back from words built with the extracted accessor expressions (link_tables counter).')
     trusted_base = ('harness/h_tree.c + lean/Driver/Tree.lean (the model/implementation correspondence is testing: identical concrete '
                     'tree after every operation)',
-                    'parent pointers are represented by the zipper path; parent(child)==node is checked on the C side on every dump',
+                    'parent pointers are represented by the zipper path; parent(child)==node is checked on the C side on every dump; '
+                    'the packed word itself is modelled arithmetically on natural numbers (`& (~1)` = x - x % 2, `| 1`, `& 1`) for even '
+                    'addresses: that calloc returns even addresses and that uintptr_t arithmetic is modular is assumed; masks other than '
+                    '1 / ~1 are outside the translator\'s fragment (ExtractError)',
+                    'cmp / hash of the ELEMENT types are parameters of the third layer (any value comparison, any hash functions); the op '
+                    'files run them as Int_Cmp / strcmp / memcmp over little-endian words and Int_Hash / hash_data (the model of C10: '
+                    'Cello.Hash.hashData over CelloGen.Hash, generator Hash); Tree_Cmp against a map that is not a Tree, Tree_Show, '
+                    'Tree_Mark (C01), Tree_Iter_Type / Tree_Key_Type / Tree_Val_Type and the destruct / free order of Tree_Clear_Entry '
+                    'stay outside the model (pinned text or exercised only)',
                     'the op files are run with Key.cmp = `compare` on Int / String / field lists; that Int_Cmp (translated) and strcmp on '
                     'unsigned bytes are lawful orders is PROVED (C03_int_keys, C03_string_keys over CelloGen.Cmp.intCmp / Cello.Cmp.bytesCmp) '
                     'and that they agree with `compare` is exercised by keys at the ends of int64_t, 2^31 / 2^32 apart and by UTF-8 keys '
@@ -488,6 +557,8 @@ class C03(Spec):
                    'target is known finding KF-C16-alias-operand and is not generated (the tree\'s own objects are whole objects)',
                    'sizes of key and value types are multiples of 8 (the model counts 8-byte words); other sizes misalign the '
                    'value header (known finding KF-C19-tree-misaligned-header) and are not generated',
+                   'cmp(t, s) is generated for two Trees of the same key and value types (across types the element cmp raises TypeError '
+                   'or compares raw bytes: C09 / C10 territory)',
                    'single thread; no allocation failure',
                    'nitems below 2^63')
 
@@ -568,6 +639,11 @@ class C03(Spec):
                 add('bigm', c_big(rng, False, 20000, 150000))
                 add('bigne', c_big(rng, 'i3', 20000, 40000))
                 add('bigne', c_big(rng, 'w5', 10000, 30000))
+        # cmp / hash of whole trees (third layer), every key / value layout
+        for rep in range((1 if quick else 4) * boost):
+            for kind in ('i', 's', 'w', 'i3', 'w5', 's3', 'ss', 'is', 'I', 'S'):
+                add('cmph_' + kind + '_', c_cmp_hash(rng, kind, rng.choice([3, 9, 20]) if quick else rng.choice([3, 9, 40, 120]),
+                                                     25 if quick else 200))
         return cs
 
     @staticmethod
